@@ -190,6 +190,7 @@ class Workflow:
             "recs": "<<" + recs + ">>", "lines": "<<" + lines + ">>",
             "seqtasks": tla(set(self.seqtasks)),
             "req": tla_fn({t: set(self.required(t)) for t in self.tasks}),
+            "customs": tla_fn({t: set((self.custom.get(t) or {}).keys()) for t in self.tasks}),
             "optsucc": tla(set(self.succ_opt)), "optsubfail": tla(self.optsubfail()), "optexp": "{}",
             "eretry": tla_fn({t: self.eretry.get(t, 0) for t in self.tasks}),
             "sretry": tla_fn({t: self.sretry.get(t, 0) for t in self.tasks}),
@@ -222,8 +223,8 @@ def generate(rng: random.Random, *, features=None) -> Workflow:
         if f["custom"] and rng.random() < 0.4:
             w.custom[t]["x"] = rng.random() < 0.4
         if f["retries"]:
-            w.eretry[t] = rng.choice([0, 0, 0, 1, 2])
-            w.sretry[t] = rng.choice([0, 0, 0, 1]) if f["submit_fail"] else 0
+            w.eretry[t] = rng.choice([0, 0, 0, 1, 2]) if f["retries"] != "always" else rng.choice([1, 2])
+            w.sretry[t] = (rng.choice([0, 0, 0, 1]) if f["retries"] != "always" else rng.choice([0, 1, 2])) if f["submit_fail"] else 0
     texts = rng.sample(sorted(set(REC_TEXTS)), rng.randint(1, 3))
     if not any(t.startswith("P") for t in texts):
         texts[0] = "P1"
@@ -288,9 +289,9 @@ def generate(rng: random.Random, *, features=None) -> Workflow:
                       for a in atoms_of(l["lhs"])) for l in w.lines)
         if not has_seq:
             w.lines.append({"rec": 0, "lhs": None, "rhs": t, "suicide": False})
-    if f["sequential"] and rng.random() < 0.25:
+    if f["sequential"] and (f["sequential"] == "always" or rng.random() < 0.25):
         w.seqtasks.add(rng.choice(w.tasks))
-    if f["queues"] and rng.random() < 0.5:
+    if f["queues"] and (f["queues"] == "always" or rng.random() < 0.5):
         nq = rng.randint(1, 2)
         for qi in range(nq):
             w.queues.append({"name": f"q{qi + 1}", "limit": rng.choice([1, 1, 2]),
@@ -318,12 +319,15 @@ def make_outcome(w: Workflow, rng: random.Random, mode="complete"):
             efails = sum(1 for o in prev if o and o["submit_ok"] and o["script"][-1] == "failed")
             sfails_run = 0
             for o in reversed(prev):
-                if o and not o["submit_ok"]:
+                if o and (not o["submit_ok"] or o["script"] == ["vanish"]):
                     sfails_run += 1
                 else:
                     break
+            vanish = False
             if n_s > sfails_run and r.random() < 0.25:
                 submit_ok = False
+            elif n_s > sfails_run and r.random() < 0.2:
+                vanish = True        # accepted by the job runner, evicted before it starts
             fail_ok = (efails < n_e) or (name in w.succ_opt)
             will_fail = fail_ok and r.random() < 0.3
             for o, opt in customs.items():
@@ -332,6 +336,8 @@ def make_outcome(w: Workflow, rng: random.Random, mode="complete"):
                 elif not opt and will_fail and efails >= n_e:
                     pass
             script.append("failed" if will_fail else "succeeded")
+            if vanish:
+                script = ["vanish"]
         else:
             if r.random() < 0.15:
                 submit_ok = False
@@ -339,6 +345,8 @@ def make_outcome(w: Workflow, rng: random.Random, mode="complete"):
                 if r.random() < 0.6:
                     script.append("msg_" + o)
             script.append("failed" if r.random() < 0.3 else "succeeded")
+            if submit_ok and r.random() < 0.2:
+                script = ["vanish"]
         table[key] = {"submit_ok": submit_ok, "script": script}
         return table[key]
     outcome.table = table
